@@ -37,6 +37,14 @@ def _prod(d):
 
 
 # ----------------------------------------------------------------------------- sources
+def dlis_value(rc, r, c, e):
+    """the value recorded in an RP66V1 channel: as in C04, except that a VSINGL channel (never the index) also holds exact powers of
+    two of both signs (zero fraction field: the hidden leading bit alone)"""
+    if rc == 6 and c > 0 and (r + c + e) % 3 == 0:
+        return (1.0 if r % 2 == 0 else -1.0) * 2.0 ** ((r + e) % 9 - 3)
+    return c04.value_of(rc, r, c, e)
+
+
 def build_dlis(rng, origin_kw=None):
     nlf = rng.choice([1, 1, 2])
     recs, payloads, passes = [], [], []
@@ -77,7 +85,7 @@ def build_dlis(rng, origin_kw=None):
             data = b''
             for c, ch in enumerate(types[t]['channels']):
                 for e in range(_prod(ch['dims'])):
-                    data += c04.enc(ch['rc'], c04.value_of(ch['rc'], r, c, e))
+                    data += c04.enc(ch['rc'], dlis_value(ch['rc'], r, c, e))
             payloads.append(GL.iflr(types[t]['name'], i_ + 1, data))
             recs.append(dict(kind='I', type=0, enc=False))
         for t, ty in enumerate(types):
@@ -88,7 +96,7 @@ def build_dlis(rng, origin_kw=None):
                                xq=[int(c04.value_of(chs[0]['rc'], r_, 0, 0) * (2 if xfloat else 1)) for r_ in rmap],
                                kinds=['f' if c['rc'] in (2, 5, 6, 7) else 'i' for c in chs],
                                f32=[c['rc'] in (2, 5, 6) for c in chs],
-                               cells=[[[c04.value_of(ch['rc'], r_, c, e) for e in range(_prod(ch['dims']))] for c, ch in enumerate(chs)]
+                               cells=[[[dlis_value(ch['rc'], r_, c, e) for e in range(_prod(ch['dims']))] for c, ch in enumerate(chs)]
                                       for r_ in rmap]))
     for rec, p in zip(recs, payloads):
         rec['len'] = len(p)
